@@ -380,7 +380,11 @@ def render_rewrite(deck, recipe, expand_like=False):
     lines = []
     if 'message' in recipe.on:
         lines += ['message: outp=dummy.o runtpe=dummy.r', '']
-    lines.append(deck.title)
+    title = deck.title
+    if 'blanks' in recipe.on or 'indent' in recipe.on:
+        # the title card is free text: centred titles start with many blanks
+        title = ' ' * rng.choice([0, 3, 19, 20, 25, 40]) + title
+    lines.append(title)
     for block_id, block in (('c', cells), ('s', surfs), ('d', data)):
         for card in block:
             if 'ccomment' in recipe.on and rng.random() < 0.3:
